@@ -234,10 +234,21 @@ any_line = st.one_of(good_sync, good_instr, good_events, _near(good_sync), _near
                      _near(good_events), soup, st.sampled_from(FIXED_GARBAGE))
 
 
+def _with_repeats(lines, picks):
+    # adjacent verbatim repeats (parsable and unparsable alike): every copy counts
+    out = []
+    for i, ln in enumerate(lines):
+        out.append(ln)
+        if picks and picks[i % len(picks)] == 0:
+            out.append(ln)
+    return out
+
+
 def strat_datum(ctx: Ctx):
-    return st.builds(lambda g, lines: {"group": g, "lines": lines},
+    return st.builds(lambda g, lines, picks: {"group": g, "lines": _with_repeats(lines, picks)},
                      st.sampled_from(["sync", "instrument", "events"]),
-                     st.lists(any_line, min_size=1, max_size=ctx.pick(12, 40)))
+                     st.lists(any_line, min_size=1, max_size=ctx.pick(12, 40)),
+                     st.lists(st.integers(0, 4), max_size=6))
 
 
 def _as_plain(lst):
